@@ -24,6 +24,11 @@ def _one(args):
             prog = progs.ProgGen(rng, enums=(idx % 2 == 1), control=(idx % 2 == 1)).gen()
         if prog is not None:
             break
+    if idx % 3 == 0:
+        # a rule module without routines: the boundary must still be consistent (declared, defined, linked)
+        tl = progs.thenless_rule(rng, prog["sig"])
+        if tl is not None:
+            prog = {"sig": prog["sig"], "rules": prog["rules"] + [tl]}
     text = progs.prog_eql(prog)
     res = {"idx": idx, "prog": prog, "text": text, "module": None, "component": None, "runs": [], "files": {}}
     wm, wc = os.path.join(scratch, "m%d" % idx), os.path.join(scratch, "c%d" % idx)
